@@ -185,7 +185,7 @@ class PackageMachine:
         if which == "nobig":
             return [i for i in idx if self.seed_list[i]["name"] != "big.ods"]
         if which == "small":
-            names = {"text", "spreadsheet", "presentation", "drawing", "example.odt", "simple_table.ods", "frame_image.odp", "base_text.odt", "meta.odt", "bookmark.odt"}
+            names = {"text", "spreadsheet", "presentation", "drawing", "example.odt", "simple_table.ods", "frame_image.odp"}
             return [i for i in idx if self.seed_list[i]["name"] in names]
         if which == "templates":
             return idx[:4]
